@@ -64,7 +64,7 @@ const (
 
 func (c13) Gen(r *world.Rng, tier string, n int) interface{} {
 	sc := &C13Sc{IOSeed: r.U64()}
-	sc.Prog = []string{"jr", "djnz", "ldir", "io", "xy", "edxy", "inc", "structured", "structured", "structured"}[r.Intn(10)]
+	sc.Prog = []string{"jr", "djnz", "ldir", "io", "xy", "edxy", "inc", "sled", "ring", "fwdio", "structured", "structured", "structured", "structured"}[r.Intn(14)]
 	sc.R0 = r.Byte()
 	if sc.Prog == "structured" {
 		mode := r.Intn(3)
@@ -83,7 +83,7 @@ func (c13) Gen(r *world.Rng, tier string, n int) interface{} {
 			a := instrAddrs(p)
 			sc.BP = append(sc.BP, a[r.Intn(len(a))])
 		}
-	} else if r.Chance(1, 3) {
+	} else if r.Chance(1, 3) && sc.Prog != "sled" && sc.Prog != "ring" && sc.Prog != "fwdio" {
 		sc.BP = []uint16{0x4000, 0x0101} // never hit (0x0101 is inside the first instruction)
 	}
 	if strings.HasSuffix(tier, "-race") && n%2 == 0 {
@@ -264,6 +264,20 @@ func c13Segs(sc *C13Sc) (world.Regs, []world.Seg) {
 		// LDIR (BC=0, onto itself) ; JP (IX) back to the LDIR: all prefixed, block-instruction dominated
 		regs.IX, regs.HL, regs.DE = 0x0100, 0x8000, 0x8000
 		segs = []world.Seg{world.MkSeg(0x0100, []uint8{0xed, 0xb0, 0xdd, 0xe9})}
+	case "sled":
+		// all-zero memory: a NOP sled around the whole 64 KiB ring, every Step moves forward
+		regs.PC = uint16(sc.R0) << 8
+		segs = nil
+	case "ring":
+		// three forward JPs: 0000 -> 5000 -> A000 -> 0000 (the last one is forward through the wrap)
+		regs.PC = 0
+		segs = []world.Seg{world.MkSeg(0x0000, []uint8{0xc3, 0x00, 0x50}), world.MkSeg(0x5000, []uint8{0xc3, 0x00, 0xa0}), world.MkSeg(0xa000, []uint8{0xc3, 0x00, 0x00})}
+	case "fwdio":
+		// forward-only blocks "OUT (n),A ; JR +7C" covering the address space
+		regs.PC = 0
+		for a := 0; a < 0x10000; a += 0x80 {
+			segs = append(segs, world.MkSeg(uint16(a), []uint8{0xd3, uint8(a >> 7), 0x18, 0x7c}))
+		}
 	case "inc":
 		// IN A,(C) ; AND n ; JR Z,loop : the ordinary device-wait loop (R advances 2+1+1)
 		regs.BC = 0x0010
